@@ -262,12 +262,13 @@ def lenList : List Loc → Int
 end
 
 mutual
-/-- `asComplete` (location.go:346-364): strips partial flags (top-level and inside join/order,
-not under complement). -/
+/-- `asComplete` (location.go:346-367): strips partial flags at every depth — inside join / order
+and, since repair e43d5f2 (finding F37), under a complement as well. -/
 def asComplete : Loc → Loc
   | ranged s e _ _ => ranged s e false false
   | joined ls => joined (asCompleteList ls)
   | ordered ls => ordered (asCompleteList ls)
+  | compl l => compl (asComplete l)
   | l => l
 def asCompleteList : List Loc → List Loc
   | [] => []
